@@ -277,6 +277,17 @@ def mirrorStoreEngine : List String → String
     | o => s!"res={showOutcomeU o} alone=- again=-"
   | _ => "bad-op"
 
+/-- `tarhdr <hex of the first block>` — `isTarHeader` and `Decompress`'s decision on it -/
+def tarHdrEngine : List String → String
+  | [hexBlock] =>
+    match fromHex hexBlock with
+    | some b =>
+      let k := match decompressKind b with
+        | .uncompressed => "plain" | .bzip2 => "bzip2" | .gzip => "gzip" | .xz => "xz"
+      s!"{isTarHeader b} {k}"
+    | none => "bad-op"
+  | _ => "bad-op"
+
 def showTd : TdEv → String
   | .attempt i => s!"A{i}"
   | .skip i => s!"S{i}"
